@@ -101,13 +101,14 @@ func VH_C11_algebra() {
 // exponent in [1, q) (the real draws are 1536-bit values; only their residue
 // modulo q matters).
 var vhSMPConcrete = false
+var vhSMPSeed = 0
 
 func vhSMPRand(p *vhParty, n int, plen int) {
 	for i := 0; i < n; i++ {
 		buf := make([]byte, plen)
 		if vhSMPConcrete {
 			// a fixed honest prefix (the deviant part of the harness stays symbolic)
-			buf[plen-1] = byte(1 + (i*7+int(p.side)*3)%(vhQ-1))
+			buf[plen-1] = byte(1 + (i*7+int(p.side)*3+vhSMPSeed*(i+1))%(vhQ-1))
 		} else {
 			e := vBytes(p.rnd.name+"e", 1)
 			vAssume(vAll(e[0] >= 1, int(e[0]) < vhQ))
@@ -120,7 +121,10 @@ func vhSMPRand(p *vhParty, n int, plen int) {
 func vhSMPPair(v3 bool) (*vhParty, *vhParty) {
 	a, b := vhNewParty(0, v3), vhNewParty(1, v3)
 	a.c.msgState, b.c.msgState = encrypted, encrypted
-	ssid := vBytes("ssid", 8)
+	ssid := []byte{1, 2, 3, 4, 5, 6, 7, 8}
+	if !vhSMPConcrete {
+		ssid = vBytes("ssid", 8)
+	}
 	copy(a.c.ssid[:], ssid)
 	copy(b.c.ssid[:], ssid)
 	a.c.theirKey = b.key.PublicKey()
